@@ -17,6 +17,9 @@ Rewritings (E = expression, S = statement):
   E  not not a -> a (in a boolean context only);  not (a or b) -> not a and not b;  not (a and b) -> not a or not b;
      not (x OP y) -> x COMPLEMENT(OP) y  for  == != is 'is not' in 'not in' < <= > >=   (single operator)
   E  truth of xs[n:] -> len(xs) > n;  truth of S & {x} -> x in S;  len(x) > 0 / != 0 / >= 1 -> x and len(x) == 0 -> not x (truth context)
+  E  a < m == b -> a < m and m == b  (m a name or constant);  None not in map(F, xs) -> all(F(x) is not None for x in xs)
+  E  (A, B)[bool(c)] -> B if c else A  (A, B names or constants);  x.__len__() -> len(x);  f.writelines((x,)) -> f.write(x)
+  E  xs.insert(len(xs), a) -> xs.append(a);  Cls.m(Cls.now(), ..) -> Cls.now().m(..)
   E  s.count(c) == len(s) -> not s.strip(c)                              (c one character)
   E  True if c else False -> c;  False if c else True -> not c           (c a bool)
   E  super(Cls, self) -> super()   (inside a method of Cls whose first parameter is self);  *(x,) -> *[x]
@@ -41,9 +44,16 @@ Rewritings (E = expression, S = statement):
      list(filter(lambda i: c, xs)) -> [i for i in xs if c]
   E  {*xs} -> set(xs);  (a,) + b  ->  (a, *b)                            (b must be a tuple for the original to succeed)
   E  d.keys() as the iterable of a for loop / comprehension -> d
+  S  x = list(E) / x.sort(key=K) -> x = sorted(E, key=K)                   (adjacent statements)
+  S  errors = (ValueError, OverflowError) bound once, read only in `except errors` / isinstance(x, errors) -> the display there
   S  t = self.a.b (bound once, read only, nothing after it calls a method of `self` itself, passes `self` on or assigns self.a /
      self.a.b) -> the binding is dropped and every read of t becomes self.a.b          (the root is `self` or a parameter)
+  S  if f(x := E): -> x = E / if f(x):     (the assignment expression is evaluated first);  while True: if c: break / R -> while not c: R
+  S  for x in filter(F, xs): B -> for x in xs: if F(x): B;  for x in (y for y in xs if c): B -> for x in xs: if c: B
+  S  xs[len(xs):] = [a] -> xs.append(a);  xs[len(xs):] = ys -> xs.extend(ys);  xs[:0] = [a] -> xs.insert(0, a)
+  S  for ..: B else: E (no break in B) -> for ..: B / E
   S  return A if c else B -> if c: return A / return B;  if c: pass else: B -> if not c: B;  an else branch of only `pass` is dropped
+  S  x = {} if c else {k: v} -> x = {} / if not c: x[k] = v;  X = {..} / X.update(N) -> X = {.., **N}   (adjacent statements)
   S  x = A if c else x -> if c: x = A;  x = x if c else A -> if not c: x = A
   S  x = x + 'text' -> x += 'text'                                       (the right operand is a str constant or f-string)
   S  a, b = x, y -> a = x; b = y                                         (names / attribute chains / constants; no later value is an
@@ -187,8 +197,64 @@ class Canon(ast.NodeTransformer):
             return self.visit_BoolOp_only(e)
         return e
 
+    @staticmethod
+    def _has_own_break(body) -> bool:
+        def walk(stmts):
+            for st in stmts:
+                if isinstance(st, ast.Break):
+                    return True
+                if isinstance(st, (ast.For, ast.AsyncFor, ast.While)):
+                    if walk(st.orelse):        # a break in the else of an inner loop belongs to the outer one
+                        return True
+                    continue
+                if isinstance(st, (ast.FunctionDef, ast.AsyncFunctionDef, ast.ClassDef)):
+                    continue
+                for fld in ("body", "orelse", "finalbody"):
+                    if walk(getattr(st, fld, []) or []):
+                        return True
+                for h in getattr(st, "handlers", []) or []:
+                    if walk(h.body):
+                        return True
+        return bool(walk(body))
+
+    @staticmethod
+    def _leftmost_walrus(e: ast.AST) -> Optional[ast.NamedExpr]:
+        """The assignment expression that is evaluated before anything else of `e`, if there is one."""
+        while True:
+            if isinstance(e, ast.NamedExpr):
+                return e if isinstance(e.target, ast.Name) else None
+            if isinstance(e, ast.Compare):
+                e = e.left
+            elif isinstance(e, ast.BoolOp):
+                e = e.values[0]
+            elif isinstance(e, ast.UnaryOp):
+                e = e.operand
+            elif isinstance(e, ast.BinOp):
+                e = e.left
+            elif isinstance(e, (ast.Attribute, ast.Subscript)):
+                e = e.value
+            elif isinstance(e, ast.Call) and isinstance(e.func, ast.Name) and e.args and not isinstance(e.args[0], ast.Starred):
+                e = e.args[0]           # a plain name as callee: looking it up has no effect
+            else:
+                return None
+
     def visit_If(self, node: ast.If):
         self.generic_visit(node)
+        # if f(x := E): ...  ->  x = E / if f(x): ...        (the assignment expression is the first thing the test evaluates)
+        w = self._leftmost_walrus(node.test)
+        if w is not None and sum(isinstance(x, ast.NamedExpr) for x in ast.walk(node.test)) == 1:
+            self._note("assignment expression at the head of a test -> assignment statement", node)
+
+            class _Sub(ast.NodeTransformer):
+                def visit_NamedExpr(self_, n):
+                    return _at(ast.Name(id=n.target.id, ctx=ast.Load()), n) if n is w else n
+            pre = _at(ast.Assign(targets=[ast.Name(id=w.target.id, ctx=ast.Store())], value=w.value), node)
+            node.test = _Sub().visit(node.test)
+            rest = self.visit_If_tail(node)
+            return [pre] + (rest if isinstance(rest, list) else [rest])
+        return self.visit_If_tail(node)
+
+    def visit_If_tail(self, node: ast.If):
         node.test = self._truth(node.test)
         # if c: pass else: B  ->  if not c: B
         if node.orelse and all(isinstance(b, ast.Pass) for b in node.body):
@@ -211,6 +277,14 @@ class Canon(ast.NodeTransformer):
     def visit_While(self, node: ast.While):
         self.generic_visit(node)
         node.test = self._truth(node.test)
+        # while True: if c: break / REST  ->  while not c: REST
+        if isinstance(node.test, ast.Constant) and node.test.value is True and not node.orelse and node.body and isinstance(node.body[0], ast.If) \
+                and not node.body[0].orelse and len(node.body[0].body) == 1 and isinstance(node.body[0].body[0], ast.Break) \
+                and not any(isinstance(x, ast.Break) for b in node.body[1:] for x in ast.walk(b) if True) :
+            self._note("while True with a leading break test -> loop condition", node)
+            c = node.body[0].test
+            node.test = self._truth(_at(ast.UnaryOp(op=ast.Not(), operand=c), c))
+            node.body = node.body[1:] or [_at(ast.Pass(), node)]
         return node
 
     _NEGATIVE_OPS = (ast.NotEq, ast.IsNot, ast.NotIn, ast.LtE, ast.Lt)
@@ -241,8 +315,46 @@ class Canon(ast.NodeTransformer):
         node.test = self._truth(node.test)
         return node
 
+    def visit_Subscript(self, node: ast.Subscript):
+        self.generic_visit(node)
+        # (A, B)[bool(c)] / (A, B)[c] with c a bool -> B if c else A        (A and B names or constants: evaluating both costs nothing)
+        if isinstance(node.ctx, ast.Load) and isinstance(node.value, ast.Tuple) and len(node.value.elts) == 2 \
+                and all(isinstance(e, (ast.Name, ast.Constant)) or (isinstance(e, ast.Call) and isinstance(e.func, ast.Name) and e.func.id in ("frozenset", "set", "list", "dict", "tuple") and not e.args and not e.keywords)
+                        for e in node.value.elts):
+            c = node.slice
+            if isinstance(c, ast.Call) and isinstance(c.func, ast.Name) and c.func.id == "bool" and len(c.args) == 1 and not c.keywords:
+                c = c.args[0]
+            elif not self._is_bool(c) and not (isinstance(c, ast.Attribute) and c.attr.lstrip("_").startswith(("is_", "has_", "overflow"))):
+                return node
+            self._note("pair indexed by a bool -> conditional expression", node)
+            return self.visit_IfExp(_at(ast.IfExp(test=c, body=node.value.elts[1], orelse=node.value.elts[0]), node))
+        return node
+
     def visit_Compare(self, node: ast.Compare):
         self.generic_visit(node)
+        # 1 == x -> x == 1      (a constant on the left of == / != / is / is not)
+        if len(node.ops) == 1 and isinstance(node.ops[0], (ast.Eq, ast.NotEq, ast.Is, ast.IsNot)) and isinstance(node.left, ast.Constant) \
+                and not isinstance(node.comparators[0], ast.Constant):
+            self._note("constant moved to the right of a comparison", node)
+            node.left, node.comparators = node.comparators[0], [node.left]
+        # a OP1 m OP2 b  ->  a OP1 m and m OP2 b      (m a constant or a name: evaluated once either way)
+        if len(node.ops) == 2 and isinstance(node.comparators[0], (ast.Constant, ast.Name)):
+            self._note("comparison chain -> conjunction", node)
+            m = node.comparators[0]
+            left = _at(ast.Compare(left=node.left, ops=[node.ops[0]], comparators=[m]), node)
+            right = _at(ast.Compare(left=m, ops=[node.ops[1]], comparators=[node.comparators[1]]), node)
+            return _at(ast.BoolOp(op=ast.And(), values=[self.visit_Compare(left), self.visit_Compare(right)]), node)
+        # None not in map(F, xs) -> all(F(x) is not None for x in xs);  None in map(F, xs) -> any(F(x) is None for x in xs)
+        if len(node.ops) == 1 and isinstance(node.ops[0], (ast.In, ast.NotIn)) and isinstance(node.left, ast.Constant) and node.left.value is None \
+                and isinstance(node.comparators[0], ast.Call) and isinstance(node.comparators[0].func, ast.Name) and node.comparators[0].func.id == "map" \
+                and len(node.comparators[0].args) == 2 and isinstance(node.comparators[0].args[0], (ast.Name, ast.Attribute)):
+            F, XS = node.comparators[0].args
+            neg = isinstance(node.ops[0], ast.NotIn)
+            self._note("None (not) in map(F, xs) -> all / any over the results", node)
+            elt = ast.Compare(left=ast.Call(func=F, args=[ast.Name(id="_x", ctx=ast.Load())], keywords=[]), ops=[ast.IsNot() if neg else ast.Is()],
+                              comparators=[ast.Constant(value=None)])
+            gen = ast.GeneratorExp(elt=elt, generators=[ast.comprehension(target=ast.Name(id="_x", ctx=ast.Store()), iter=self._iter_keys(XS), ifs=[], is_async=0)])
+            return _at(ast.Call(func=ast.Name(id="all" if neg else "any", ctx=ast.Load()), args=[gen], keywords=[]), node)
         # s.count(c) == len(s)  ->  not s.strip(c)       (c one character: every character of s is c)
         if len(node.ops) == 1 and isinstance(node.ops[0], (ast.Eq, ast.NotEq)):
             for a, b in ((node.left, node.comparators[0]), (node.comparators[0], node.left)):
@@ -334,6 +446,43 @@ class Canon(ast.NodeTransformer):
                 if ok:
                     self._note("str.format -> f-string", node)
                     return _at(ast.JoinedStr(values=vals), node)
+        # ''.join(re.findall(r'\w', s)) -> re.sub(r'\W', '', s)      (a one-character class and its complement)
+        if isinstance(f, ast.Attribute) and f.attr == "join" and isinstance(f.value, ast.Constant) and f.value.value == "" and len(node.args) == 1 \
+                and isinstance(node.args[0], ast.Call) and ast.unparse(node.args[0].func) == "re.findall" and len(node.args[0].args) == 2 \
+                and not node.args[0].keywords and isinstance(node.args[0].args[0], ast.Constant) \
+                and node.args[0].args[0].value in ("\\w", "\\W", "\\d", "\\D", "\\s", "\\S"):
+            pat = node.args[0].args[0].value
+            self._note("join of findall of a class -> sub of its complement", node)
+            comp = pat[0] + (pat[1].upper() if pat[1].islower() else pat[1].lower())
+            return _at(ast.Call(func=ast.Attribute(value=node.args[0].func.value, attr="sub", ctx=ast.Load()),
+                                args=[ast.Constant(value=comp), ast.Constant(value=""), node.args[0].args[1]], keywords=[]), node)
+        # filterfalse(operator.not_, xs) -> filter(None, xs)
+        if isinstance(f, (ast.Name, ast.Attribute)) and (f.id if isinstance(f, ast.Name) else f.attr) == "filterfalse" and len(node.args) == 2 \
+                and not node.keywords and ast.unparse(node.args[0]) in ("operator.not_", "not_"):
+            self._note("filterfalse(not_, xs) -> filter(None, xs)", node)
+            return _at(ast.Call(func=ast.Name(id="filter", ctx=ast.Load()), args=[ast.Constant(value=None), node.args[1]], keywords=[]), node)
+        # x.__len__() -> len(x)
+        if isinstance(f, ast.Attribute) and f.attr == "__len__" and not node.args and not node.keywords:
+            self._note("x.__len__() -> len(x)", node)
+            return _at(ast.Call(func=ast.Name(id="len", ctx=ast.Load()), args=[f.value], keywords=[]), node)
+        # f.writelines((x,)) -> f.write(x)
+        if isinstance(f, ast.Attribute) and f.attr == "writelines" and len(node.args) == 1 and not node.keywords \
+                and isinstance(node.args[0], (ast.Tuple, ast.List)) and len(node.args[0].elts) == 1 and not isinstance(node.args[0].elts[0], ast.Starred):
+            self._note("writelines of one item -> write", node)
+            return _at(ast.Call(func=ast.Attribute(value=f.value, attr="write", ctx=ast.Load()), args=[node.args[0].elts[0]], keywords=[]), node)
+        # xs.insert(len(xs), a) -> xs.append(a)
+        if isinstance(f, ast.Attribute) and f.attr == "insert" and len(node.args) == 2 and not node.keywords and isinstance(node.args[0], ast.Call) \
+                and isinstance(node.args[0].func, ast.Name) and node.args[0].func.id == "len" and len(node.args[0].args) == 1 \
+                and _simple_operand(f.value) and ast.dump(node.args[0].args[0]) == ast.dump(f.value):
+            self._note("xs.insert(len(xs), a) -> xs.append(a)", node)
+            return _at(ast.Call(func=ast.Attribute(value=f.value, attr="append", ctx=ast.Load()), args=[node.args[1]], keywords=[]), node)
+        # Cls.method(Cls.make(..), b) -> Cls.make(..).method(b)      (the instance comes from a constructor method of the same class)
+        if isinstance(f, ast.Attribute) and isinstance(f.value, ast.Name) and node.args and isinstance(node.args[0], ast.Call) \
+                and isinstance(node.args[0].func, ast.Attribute) and isinstance(node.args[0].func.value, ast.Name) \
+                and node.args[0].func.value.id == f.value.id and node.args[0].func.attr in ("now", "today", "utcnow", "fromtimestamp", "fromisoformat") \
+                and not f.attr.startswith("__"):
+            self._note("Cls.m(Cls.make(..), ..) -> Cls.make(..).m(..)", node)
+            return _at(ast.Call(func=ast.Attribute(value=node.args[0], attr=f.attr, ctx=ast.Load()), args=list(node.args[1:]), keywords=node.keywords), node)
         # re.compile(P).sub(..) -> re.sub(P, ..)
         if isinstance(f, ast.Attribute) and f.attr in ("sub", "subn", "match", "fullmatch", "search", "split", "findall", "finditer") \
                 and isinstance(f.value, ast.Call) and ast.unparse(f.value.func) == "re.compile" and len(f.value.args) == 1 and not f.value.keywords \
@@ -425,6 +574,50 @@ class Canon(ast.NodeTransformer):
     def visit_For(self, node: ast.For):
         self.generic_visit(node)
         node.iter = self._iter_keys(node.iter)
+        it = node.iter
+        # for ...: B else: E   without a break in B  ->  for ...: B / E
+        if node.orelse and not self._has_own_break(node.body):
+            self._note("else of a loop without break -> statements after the loop", node)
+            tail, node.orelse = node.orelse, []
+            res = self.visit_For(node)
+            return (res if isinstance(res, list) else [res]) + tail
+        # for x in filter(F, XS): B  ->  for x in XS: if F(x): B         (filter is lazy: the test of an item runs right before its body)
+        if isinstance(it, ast.Call) and isinstance(it.func, ast.Name) and it.func.id == "filter" and len(it.args) == 2 and not it.keywords \
+                and isinstance(node.target, ast.Name) and not node.orelse:
+            F, XS = it.args
+            x = node.target.id
+            cond = None
+            if isinstance(F, ast.Constant) and F.value is None:
+                cond = ast.Name(id=x, ctx=ast.Load())
+            elif isinstance(F, ast.Lambda) and len(F.args.args) == 1 and not F.args.defaults and not F.args.vararg and not F.args.kwarg and not F.args.kwonlyargs:
+                v = F.args.args[0].arg
+
+                class _Ren(ast.NodeTransformer):
+                    def visit_Name(self_, n):
+                        return _at(ast.Name(id=x, ctx=n.ctx), n) if n.id == v else n
+                cond = _Ren().visit(F.body) if v != x else F.body
+            elif isinstance(F, ast.Attribute) and F.attr == "__contains__":
+                cond = ast.Compare(left=ast.Name(id=x, ctx=ast.Load()), ops=[ast.In()], comparators=[F.value])
+            elif isinstance(F, (ast.Name, ast.Attribute)):
+                cond = ast.Call(func=F, args=[ast.Name(id=x, ctx=ast.Load())], keywords=[])
+            if cond is not None:
+                self._note("for over filter(F, xs) -> for over xs with a guard", node)
+                node.iter = XS
+                node.body = [_at(ast.If(test=self._truth(_at(cond, node)), body=node.body, orelse=[]), node)]
+        # for x in (y for y in XS if C): B  ->  for x in XS: if C[x]: B
+        elif isinstance(it, ast.GeneratorExp) and len(it.generators) == 1 and isinstance(it.generators[0].target, ast.Name) \
+                and isinstance(it.elt, ast.Name) and it.elt.id == it.generators[0].target.id and isinstance(node.target, ast.Name) and not node.orelse \
+                and it.generators[0].ifs:
+            v, x = it.elt.id, node.target.id
+
+            class _Ren2(ast.NodeTransformer):
+                def visit_Name(self_, n):
+                    return _at(ast.Name(id=x, ctx=n.ctx), n) if n.id == v else n
+            conds = [(_Ren2().visit(c) if v != x else c) for c in it.generators[0].ifs]
+            self._note("for over a filtering generator expression -> for with a guard", node)
+            test = conds[0] if len(conds) == 1 else ast.BoolOp(op=ast.And(), values=conds)
+            node.iter = it.generators[0].iter
+            node.body = [_at(ast.If(test=self._truth(_at(test, node)), body=node.body, orelse=[]), node)]
         return node
 
     def visit_comprehension(self, node: ast.comprehension):
@@ -480,6 +673,27 @@ class Canon(ast.NodeTransformer):
     # -- statements ----------------------------------------------------------------------------------------------------------
     def visit_Assign(self, node: ast.Assign):
         self.generic_visit(node)
+        # xs[len(xs):] = [a] -> xs.append(a);  xs[len(xs):] = ys -> xs.extend(ys);  xs[:0] = [a] -> xs.insert(0, a)
+        def _recv_ok(r):
+            return _simple_operand(r) or (isinstance(r, ast.Subscript) and _simple_operand(r.value) and isinstance(r.slice, (ast.Constant, ast.Name)))
+        if len(node.targets) == 1 and isinstance(node.targets[0], ast.Subscript) and isinstance(node.targets[0].slice, ast.Slice) \
+                and _recv_ok(node.targets[0].value) and node.targets[0].slice.step is None:
+            sl, recv = node.targets[0].slice, node.targets[0].value
+            rl = ast.Name(id=recv.id, ctx=ast.Load()) if isinstance(recv, ast.Name) else recv
+            at_end = sl.upper is None and isinstance(sl.lower, ast.Call) and isinstance(sl.lower.func, ast.Name) and sl.lower.func.id == "len" \
+                and len(sl.lower.args) == 1 and ast.dump(sl.lower.args[0]) == ast.dump(recv).replace("Store()", "Load()")
+            at_start = sl.lower is None and isinstance(sl.upper, ast.Constant) and sl.upper.value == 0
+            one = isinstance(node.value, ast.List) and len(node.value.elts) == 1 and not isinstance(node.value.elts[0], ast.Starred)
+            call = None
+            if at_end and one:
+                call = ast.Call(func=ast.Attribute(value=rl, attr="append", ctx=ast.Load()), args=[node.value.elts[0]], keywords=[])
+            elif at_end:
+                call = ast.Call(func=ast.Attribute(value=rl, attr="extend", ctx=ast.Load()), args=[node.value], keywords=[])
+            elif at_start and one:
+                call = ast.Call(func=ast.Attribute(value=rl, attr="insert", ctx=ast.Load()), args=[ast.Constant(value=0), node.value.elts[0]], keywords=[])
+            if call is not None:
+                self._note("slice assignment at an end of a list -> append / extend / insert", node)
+                return _at(ast.Expr(value=call), node)
         if len(node.targets) == 1 and isinstance(node.targets[0], ast.Name):
             x = node.targets[0].id
             v = node.value
@@ -490,6 +704,16 @@ class Canon(ast.NodeTransformer):
                 self._note("x = A if c else x -> if c: x = A", node)
                 inner = self.visit_Assign(_at(ast.Assign(targets=[ast.Name(id=x, ctx=ast.Store())], value=v.body if keep_else else v.orelse), node))
                 return _at(ast.If(test=test, body=inner if isinstance(inner, list) else [inner], orelse=[]), node)
+            # x = {} if c else {k: v}  ->  x = {} / if not c: x[k] = v        (and with the arms the other way round)
+            if isinstance(v, ast.IfExp) and isinstance(v.body, ast.Dict) and isinstance(v.orelse, ast.Dict) \
+                    and (not v.body.keys) != (not v.orelse.keys) and all(k is not None for k in v.body.keys + v.orelse.keys):
+                full, when_full = (v.orelse, False) if not v.body.keys else (v.body, True)
+                test = v.test if when_full else self._truth(_at(ast.UnaryOp(op=ast.Not(), operand=v.test), v.test))
+                self._note("x = {} if c else {k: v} -> x = {} / guarded stores", node)
+                stores = [_at(ast.Assign(targets=[ast.Subscript(value=ast.Name(id=x, ctx=ast.Load()), slice=k, ctx=ast.Store())], value=val), node)
+                          for k, val in zip(full.keys, full.values)]
+                return [_at(ast.Assign(targets=[ast.Name(id=x, ctx=ast.Store())], value=_at(ast.Dict(keys=[], values=[]), node)), node),
+                        _at(ast.If(test=test, body=stores, orelse=[]), node)]
             # x = x + 'text'  ->  x += 'text'             (the right operand is text, so x is a str: no aliasing to observe)
             if isinstance(v, ast.BinOp) and isinstance(v.op, ast.Add) and isinstance(v.left, ast.Name) and v.left.id == x and (
                     isinstance(v.right, ast.JoinedStr) or (isinstance(v.right, ast.Constant) and isinstance(v.right.value, str))):
@@ -587,9 +811,81 @@ class Canon(ast.NodeTransformer):
         self.generic_visit(node)
         self._list_tables = outer
         self._propagate_aliases(node)
+        self._inline_class_tuples(node)
+        self._fuse_copy_sort(node)
         return node
 
     visit_AsyncFunctionDef = visit_FunctionDef
+
+    def _fuse_copy_sort(self, fn: ast.AST):
+        """x = list(E) / x.sort(key=K)  ->  x = sorted(E, key=K)      (two adjacent statements)"""
+        for holder in ast.walk(fn):
+            for fld in ("body", "orelse", "finalbody"):
+                blk = getattr(holder, fld, None)
+                if not isinstance(blk, list):
+                    continue
+                i = 0
+                while i + 1 < len(blk):
+                    a, b = blk[i], blk[i + 1]
+                    if isinstance(a, ast.Assign) and len(a.targets) == 1 and isinstance(a.targets[0], ast.Name) and isinstance(a.value, ast.Call) \
+                            and isinstance(a.value.func, ast.Name) and a.value.func.id == "list" and len(a.value.args) == 1 and not a.value.keywords \
+                            and isinstance(b, ast.Expr) and isinstance(b.value, ast.Call) and isinstance(b.value.func, ast.Attribute) \
+                            and b.value.func.attr == "sort" and isinstance(b.value.func.value, ast.Name) and b.value.func.value.id == a.targets[0].id \
+                            and not b.value.args and all(k.arg in ("key", "reverse") for k in b.value.keywords):
+                        self._note("list copy followed by in-place sort -> sorted()", a)
+                        a.value = _at(ast.Call(func=ast.Name(id="sorted", ctx=ast.Load()), args=[a.value.args[0]], keywords=b.value.keywords), a.value)
+                        del blk[i + 1]
+                    # X = {..display..} / X.update(N)  ->  X = {.., **N}
+                    if isinstance(a, ast.Assign) and len(a.targets) == 1 and isinstance(a.targets[0], ast.Name) and isinstance(a.value, ast.Dict) \
+                            and i + 1 < len(blk) and isinstance(blk[i + 1], ast.Expr) and isinstance(blk[i + 1].value, ast.Call) \
+                            and isinstance(blk[i + 1].value.func, ast.Attribute) and blk[i + 1].value.func.attr == "update" \
+                            and isinstance(blk[i + 1].value.func.value, ast.Name) and blk[i + 1].value.func.value.id == a.targets[0].id \
+                            and len(blk[i + 1].value.args) == 1 and not blk[i + 1].value.keywords and isinstance(blk[i + 1].value.args[0], ast.Name):
+                        self._note("dict display followed by update(N) -> display with **N", a)
+                        a.value.keys.append(None)
+                        a.value.values.append(blk[i + 1].value.args[0])
+                        del blk[i + 1]
+                    i += 1
+
+    def _inline_class_tuples(self, fn: ast.AST):
+        """`errors = (ValueError, OverflowError)` bound once and read only as the class of an except clause or of isinstance /
+        issubclass: the display is put back where it is used."""
+        nested = {id(x) for n in ast.walk(fn) if n is not fn and isinstance(n, (ast.FunctionDef, ast.AsyncFunctionDef, ast.Lambda, ast.ClassDef))
+                  for x in ast.walk(n)}
+        own = [n for n in ast.walk(fn) if id(n) not in nested]
+        for st in own:
+            if not (isinstance(st, ast.Assign) and len(st.targets) == 1 and isinstance(st.targets[0], ast.Name) and isinstance(st.value, ast.Tuple)
+                    and st.value.elts and all(isinstance(e, ast.Name) and e.id[:1].isupper() or isinstance(e, ast.Name) and e.id in ("list", "dict", "str", "int", "float", "tuple", "set")
+                                              for e in st.value.elts)):
+                continue
+            x = st.targets[0].id
+            if sum(1 for n in ast.walk(fn) if isinstance(n, ast.Name) and n.id == x and isinstance(n.ctx, ast.Store)) != 1:
+                continue
+            uses = [n for n in ast.walk(fn) if isinstance(n, ast.Name) and n.id == x and isinstance(n.ctx, ast.Load)]
+            holders = []
+            for n in ast.walk(fn):
+                if isinstance(n, ast.ExceptHandler) and n.type in uses:
+                    holders.append((n, "type"))
+                if isinstance(n, ast.Call) and isinstance(n.func, ast.Name) and n.func.id in ("isinstance", "issubclass") and len(n.args) == 2 and n.args[1] in uses:
+                    holders.append((n, "arg"))
+            if not uses or len(holders) != len(uses):
+                continue
+            self._note(f"tuple of classes `{x}` put back where it is used", st)
+            for h, kind in holders:
+                new = _at(ast.Tuple(elts=[ast.Name(id=e.id, ctx=ast.Load()) for e in st.value.elts], ctx=ast.Load()), h)
+                if kind == "type":
+                    h.type = new
+                else:
+                    h.args[1] = new
+            for holder in ast.walk(fn):
+                for fld in ("body", "orelse", "finalbody"):
+                    blk = getattr(holder, fld, None)
+                    if isinstance(blk, list) and any(b is st for b in blk):
+                        i = next(k for k, b in enumerate(blk) if b is st)
+                        if len(blk) == 1:
+                            blk[i] = _at(ast.Pass(), st)
+                        else:
+                            del blk[i]
 
     # -- read-only aliases of attribute chains ---------------------------------------------------------------------------------
     def _propagate_aliases(self, fn: ast.AST):
